@@ -70,6 +70,21 @@ def lay1(ctx, c):
             c.finding("translate_statements:%s" % name, "iterates %s" % it, "the %s pass iterates %s instead of all of self.statements in order" % (name, it), repo.loc(fn, st))
         else:
             c.undecided("translate_statements:%s" % name, "iteration-shape-not-recognised", it or type(st).__name__, repo.loc(fn, st))
+    # the fix-up pass hands each statement its own position: a position looked up by value finds the first EQUAL statement
+    # (Statement defines __eq__ over a few fields), which is another statement whenever two lines read alike
+    if "address fix-up" in pos:
+        st = pos["address fix-up"][1]
+        for call in [x for x in ast.walk(st) if isinstance(x, ast.Call) and U(x.func).endswith(".fix_addresses") and len(x.args) >= 2]:
+            idx = call.args[1]
+            by_value = [x for x in ast.walk(idx) if isinstance(x, ast.Call) and isinstance(x.func, ast.Attribute) and x.func.attr == "index"]
+            has_eq = "__eq__" in repo.cls("Statement").methods
+            if by_value and has_eq:
+                c.finding("translate_statements:fix-up-index", "the position is looked up by value (%s)" % U(idx)[:50],
+                          "the fix-up pass passes `%s` as the statement's position: list.index compares with Statement.__eq__, so for two statements that compare equal the "
+                          "second one is fixed up as if it stood where the first does (its backward/forward decision and branch offset are computed from the wrong place)" % U(idx)[:60],
+                          repo.loc(fn, call))
+            elif isinstance(st, ast.For) and isinstance(st.target, ast.Tuple) and U(idx) == U(st.target.elts[0]) and U(st.iter).startswith("enumerate("):
+                c.ok("translate_statements:fix-up-index", "the enumerate index of the statement itself", repo.loc(fn, call))
     # LAY-2 address pass
     if "address assignment" in pos:
         st = pos["address assignment"][1]
@@ -287,6 +302,18 @@ def exp1(ctx, c):
             wrapped = any(isinstance(x, ast.Call) and U(x.func) == "int" and x.args and x.args[0] is div for x in ast.walk(node.body[0]))
             c.check(wrapped, "ExpressionValue.resolve:/:truncation", "int(left / right)", "quotient used as %s" % U(node.body[0].value)[:60],
                     "the quotient is not truncated with int(): %s rounds or keeps a fraction (7/2 must be 3)" % U(node.body[0].value)[:80], repo.loc(fn, node))
+    # a division divides by the operand itself: a divisor patched with `or 1`, a conditional or max() turns X/0 into a number
+    for m in repo.cls("ExpressionValue").methods.values():
+        for x in ast.walk(m.node):
+            if isinstance(x, ast.BinOp) and isinstance(x.op, (ast.Div, ast.FloorDiv)):
+                d = x.right
+                masked = isinstance(d, (ast.BoolOp, ast.IfExp)) or (isinstance(d, ast.Call) and U(d.func) in ("max", "abs") and len(d.args) > 1)
+                site = "%s:divisor" % m.q
+                if masked:
+                    c.finding(site, "division by zero masked: divides by %s" % U(d), "%s divides by `%s`: a zero divisor is silently replaced, so X/0 assembles to a number "
+                              "instead of being diagnosed" % (m.q, U(d)), repo.loc(m, x))
+                elif isinstance(d, (ast.Name, ast.Attribute)):
+                    c.ok(site, "divides by the operand itself", repo.loc(m, x))
     # reductions modulo N: only powers of two that are field sizes
     vmod = repo.cls("ExpressionValue").module
     for f in [x for x in repo.all_funcs() if x.module.rel in (vmod.rel, "cocoasm/statement.py", "cocoasm/operands.py", "cocoasm/program.py")]:
@@ -474,6 +501,17 @@ def dir1(ctx, c):
         else:
             c.check(sizes == [w], "%s:element-width" % cls, "%d hex digits per element" % w, "element width %s" % sizes,
                     "%s renders its elements with %s hex digits, the directive needs %d" % (cls, sizes, w), repo.loc(f, f.node))
+        # each element is a numeric literal: built by NumericValue.  Value.create_from_str also yields symbols and expressions,
+        # which nothing resolves inside a list and which render as no bytes at all
+        ctors = [U(n.func.value.func) for n in ast.walk(f.node) if isinstance(n, ast.Call) and isinstance(n.func, ast.Attribute) and n.func.attr == "hex"
+                 and isinstance(n.func.value, ast.Call)]
+        loose = [x for x in ctors if x in ("Value.create_from_str", "SymbolValue", "ExpressionValue", "cls.create_from_str")]
+        if loose:
+            c.finding("%s:element-type" % cls, "elements built by %s" % loose[0],
+                      "%s builds its elements with %s: a label or expression in the list is accepted, never resolved, and contributes no byte (or the wrong width) "
+                      "to the data emitted" % (cls, loose[0]), repo.loc(f, f.node))
+        elif ctors and all(x == "NumericValue" for x in ctors):
+            c.ok("%s:element-type" % cls, "elements are NumericValue literals", repo.loc(f, f.node))
         seps = [try_fold(n.args[0]) for n in ast.walk(f.node) if isinstance(n, ast.Call) and U(n.func).endswith(".split") and n.args]
         if not seps:
             c.undecided("%s:separator" % cls, "split-not-recognised", "", repo.loc(f, f.node))
@@ -610,6 +648,51 @@ def inc1(ctx, c):
         c.finding("process_mnemonics:diagnostics", "a missing file or an inclusion cycle is not turned into a diagnostic",
                   "process_mnemonics opens the included file outside any handler and recurses without a visited set: a missing file ends in FileNotFoundError and a file that includes itself in RecursionError",
                   where)
+    # the handler around the read catches every way a path can fail to open (missing, a directory, not permitted): OSError
+    NARROW = {"FileNotFoundError", "PermissionError", "IsADirectoryError", "NotADirectoryError", "FileExistsError"}
+    WIDE = {"OSError", "IOError", "EnvironmentError", "Exception", "BaseException"}
+    for tr in [n for n in ast.walk(fn.node) if isinstance(n, ast.Try)]:
+        if any(isinstance(x, ast.Call) and U(x.func).endswith((".read_file", "read_assembly_contents", "open")) for b in tr.body for x in ast.walk(b)):
+            names = set()
+            for h in tr.handlers:
+                if h.type is None:
+                    names.add("BaseException")
+                else:
+                    names |= {U(e).split(".")[-1] for e in (h.type.elts if isinstance(h.type, ast.Tuple) else [h.type])}
+            if names & WIDE:
+                c.ok("process_mnemonics:read-errors", "any OSError of the read becomes a diagnostic", repo.loc(fn, tr))
+            elif names and names <= NARROW:
+                c.finding("process_mnemonics:read-errors", "only %s is translated" % ", ".join(sorted(names)),
+                          "process_mnemonics translates only %s from reading the included file: INCLUDE of a directory or of an unreadable file raises another OSError, "
+                          "which leaves the assembler as a traceback" % ", ".join(sorted(names)), repo.loc(fn, tr))
+    # the chain of files being included is a collection of names: membership in a string is a substring test
+    trail = params[1] if len(params) > 1 else None
+    if trail:
+        dflt = fn.node.args.defaults[-1] if fn.node.args.defaults else None
+        stringy = isinstance(dflt, ast.Constant) and isinstance(dflt.value, str)
+        for r in [n for n in ast.walk(loop) if isinstance(n, ast.Call) and U(n.func).endswith("process_mnemonics") and len(n.args) + len(n.keywords) >= 2]:
+            a = r.args[1] if len(r.args) >= 2 else next((k.value for k in r.keywords if k.arg == trail), None)
+            if isinstance(a, ast.JoinedStr) or (isinstance(a, ast.Call) and isinstance(a.func, ast.Attribute) and a.func.attr in ("format", "join")) or \
+                    (isinstance(a, ast.BinOp) and any(isinstance(x, ast.Constant) and isinstance(x.value, str) for x in (a.left, a.right))):
+                stringy = True
+        member = [n for n in ast.walk(loop) if isinstance(n, ast.Compare) and isinstance(n.ops[0], (ast.In, ast.NotIn)) and U(n.comparators[0]) == trail]
+        if stringy and member:
+            c.finding("process_mnemonics:trail", "the inclusion chain is a string and is searched with `in`",
+                      "process_mnemonics keeps the files being included as one string and tests `%s`: that is a substring test, so including a.asm from inside data.asm "
+                      "(or any file whose name occurs inside a name already on the chain) is rejected as a cycle" % U(member[0]), repo.loc(fn, member[0]))
+        elif member:
+            c.ok("process_mnemonics:trail", "the chain is a collection of names", repo.loc(fn, member[0]))
+    # the whole file is read
+    rc = repo.method("SourceFile", "read_assembly_contents")
+    for x in ast.walk(rc.node):
+        if isinstance(x, ast.Call) and isinstance(x.func, ast.Attribute) and x.func.attr in ("readlines", "read", "readline"):
+            limited = bool(x.args or x.keywords) or x.func.attr == "readline"
+            if limited:
+                c.finding("SourceFile.read_assembly_contents", "reads only part of the file: %s" % U(x)[:50],
+                          "read_assembly_contents calls %s: a size hint makes readlines stop after about that many bytes, so a source (or included) file longer than that is "
+                          "assembled from its beginning only, with no diagnostic" % U(x)[:60], repo.loc(rc, x))
+            else:
+                c.ok("SourceFile.read_assembly_contents", "reads the whole file", repo.loc(rc, x))
 
 
 def txt1(ctx, c):
@@ -687,4 +770,34 @@ def txt1(ctx, c):
             c.ok("charset:symbol-vs-expression", "every symbol can be an expression term", vmod.rel)
 
 
-RULES = {"LAY-0": lay0, "LAY-1": lay1, "LAY-3": lay3, "EXP-1": exp1, "DIR-1": dir1, "INC-1": inc1, "TXT-1": txt1}
+
+def txt2(ctx, c):
+    """TXT-2 every field of a line the pattern accepts is text."""
+    repo = ctx.repo
+    pl = repo.method("Statement", "parse_line")
+    from ..inline import flatten as _fl3
+    t = U(_fl3(repo, pl, depth=2))
+    mod = repo.cls("Statement").module
+    node = mod.assigns.get("ASM_LINE_REGEX")
+    pat = try_fold(node.args[0]) if isinstance(node, ast.Call) and node.args else None
+    if not isinstance(pat, str):
+        c.undecided("ASM_LINE_REGEX", "pattern-not-constant", "", mod.rel)
+        return
+    rx = re.compile(pat)
+    # a field that took no part in the match is None, not "": every field the parser reads as text must be text whenever
+    # the pattern matches (lines without a trailing newline, without operands, without a label)
+    nones = []
+    for line in ("  RTS", " RTS\n", "TABLE FCB", "TABLE FCB\n", "L EQU", "L EQU ;c", "  NOP ", "X", "X\n", " \n", "L LDA #1"):
+        m = rx.match(line)
+        if m:
+            for gname in ("label", "mnemonic", "operands", "comment"):
+                if gname in rx.groupindex and m.group(gname) is None and not re.search(r"group\('%s'\) or " % gname, t):
+                    nones.append((line, gname))
+    if nones:
+        c.finding("ASM_LINE_REGEX:fields-are-text", "the %s field is None for a line the pattern accepts" % nones[0][1],
+                  "the line pattern matches %r with the %s field absent (None): the operand constructors treat the field as a string (`',' in operand`, "
+                  ".startswith) and die with TypeError / AttributeError, which parse_line does not translate" % nones[0], "%s:%d" % (mod.rel, node.lineno))
+    else:
+        c.ok("ASM_LINE_REGEX:fields-are-text", "every field of a matching line is a string", "%s:%d" % (mod.rel, node.lineno))
+
+RULES = {"TXT-2": txt2, "LAY-0": lay0, "LAY-1": lay1, "LAY-3": lay3, "EXP-1": exp1, "DIR-1": dir1, "INC-1": inc1, "TXT-1": txt1}
